@@ -173,9 +173,7 @@ func iterNext(it *pogreb.ItemIterator, quietPop bool) (k, v []byte, err error) {
 }
 
 func execOp(s *Sess, st *concState, thread, idx int, o Op, r *ConcRun) {
-	if o.Key != "" && s.Keys[o.Key] == nil {
-		panic(harnessErr("scenario uses key role " + o.Key + " which the base does not define"))
-	}
+
 	quietPop := st.quietPop
 	e := Event{Thread: thread, Idx: idx, Op: o, LogAt: len(s.FS.Log)}
 	e.Call = vsync.LogicalTime()
@@ -423,6 +421,13 @@ func (st ExploreStats) BoundName() string {
 // before it is reported.
 func ExploreScenario(c *Ctx, sc *Scenario, base *Base, slice time.Time, check func(r *ConcRun) (class, msg string)) (*Violation, ExploreStats) {
 	var st ExploreStats
+	for _, t := range append(append([]ThreadProg(nil), sc.Threads...), sc.PostClose) {
+		for _, o := range t {
+			if o.Key != "" && base.Keys[o.Key] == nil {
+				c.HarnessError("scenario %s uses key role %q which base %s does not define", sc.Name, o.Key, base.Name)
+			}
+		}
+	}
 	// determinism proof
 	a := RunScenario(sc, base, nil, true)
 	b := RunScenario(sc, base, nil, true)
